@@ -430,6 +430,8 @@ impl<'a> Exec<'a> {
                 self.world.answer_open(*n, stream).is_some()
             }
             Act::InSub(n, s) => {
+                // s >= 100: negotiated under the protocol's fallback name
+                let (via_fallback, s) = (*s >= 100, &(*s % 100));
                 if *s >= self.sc.protos.len() {
                     return false;
                 }
@@ -443,7 +445,10 @@ impl<'a> Exec<'a> {
                 }
                 self.stat("inbound_substreams");
                 self.last_insub = Some(cid);
-                self.world.inbound_substream(cid, *s, stream)
+                if via_fallback {
+                    self.stat("inbound_substreams_under_fallback_name");
+                }
+                self.world.inbound_substream_named(cid, *s, stream, via_fallback)
             }
             Act::Advance(ms) => {
                 self.advance(*ms);
@@ -763,7 +768,7 @@ fn random_act(e: &Exec, rng: &mut Rng) -> Act {
             3 | 4 if nl > 0 => return Act::CloseConn(rng.usize(nl)),
             5 | 6 | 7 | 8 => return Act::OpenSub(rng.usize(ns), rng.usize(np)),
             9 | 10 | 11 if nc > 0 => return Act::Answer(rng.usize(nc), rng.chance(0.75)),
-            12 if nl > 0 => return Act::InSub(rng.usize(nl), rng.usize(ns)),
+            12 if nl > 0 => return Act::InSub(rng.usize(nl), rng.usize(ns) + if rng.bool() { 100 } else { 0 }),
             13 | 14 | 15 => {
                 let ms = match rng.usize(6) {
                     0 => 1,
